@@ -903,23 +903,29 @@ def line_parser(fmt):
             "paml": paml.PamlParser, "clustal": clustal.ClustalParser}[fmt]
 
 
-def contract_splitlines(case):
+def sl_text(case):
+    kind, payload, lay, cmp_, chunk = case
+    if kind == "lines":
+        lines, spec = list(payload), None
+    else:
+        names, seqs = payload
+        lines = spec_lines(kind, names, seqs, lay)
+        spec = [[n, s] for n, s in zip(names, seqs)]
+    return lines, spec, spec_text(lines, lay)
+
+
+def sl_eval(case):
+    """("skip",) | ("ok", nontrivial) | ("fail", signature, message)"""
     from cogent3.util.io import iter_splitlines
     kind, payload, lay, cmp_, chunk = case
     if chunk is not None and chunk < 1:
         return ("skip",)
     if kind == "lines":
-        lines = list(payload)
-        if not lay.get("final_eol", True) and (not lines or lines[-1] == ""):
+        if not lay.get("final_eol", True) and (not payload or payload[-1] == ""):
             return ("skip",)                # the last empty line would not exist in the file
-        spec = None
-    else:
-        names, seqs = payload
-        lines = spec_lines(kind, names, seqs, lay)
-        spec = [[n, s] for n, s in zip(names, seqs)]
-    text = spec_text(lines, lay)
-    site = f"splitlines/{kind if kind == 'lines' else 'format-text'}"
-    eolname = {"\n": "LF", "\r\n": "CRLF", "\r": "CR"}[lay.get("eol", "\n")]
+    elif not well_formed(kind, payload[0], payload[1]):
+        return ("skip",)
+    lines, spec, text = sl_text(case)
     with tempfile.TemporaryDirectory() as d:
         sfx = "txt" if kind == "lines" else SUFFIX[kind]
         path = os.path.join(d, "x." + sfx + ("." + cmp_ if cmp_ else ""))
@@ -927,11 +933,18 @@ def contract_splitlines(case):
         try:
             got = list(iter_splitlines(path, chunk_size=chunk))
         except Exception as e:
-            return ("fail", f"{site}/raises {type(e).__name__}/{eolname}/{chunk_class(chunk, len(text))}",
-                    f"{case}: {type(e).__name__}: {str(e)[:200]}")
+            return ("fail", f"raises {type(e).__name__}", f"{type(e).__name__}: {str(e)[:200]}")
         if got != lines:
-            return ("fail", f"{site}/lines differ/{eolname}/{chunk_class(chunk, len(text))}/{cmp_ or 'plain'}",
-                    f"{case}: text {text[:200]!r} streamed as {got[:12]}, built from {lines[:12]}")
+            if got == [ln for ln in lines if ln != ""]:
+                what = "blank lines dropped"
+            elif "".join(got) == "".join(lines) and len(got) < len(lines):
+                what = "lines merged or blank lines dropped"
+            elif len(got) > len(lines):
+                what = "extra lines"
+            else:
+                what = "content"
+            return ("fail", f"lines differ ({what})",
+                    f"text {text[:200]!r} streamed as {got[:12]}, built from {lines[:12]}")
         if spec is not None:
             parse = line_parser(kind)
             try:                             # precondition: the parser returns the spec records on the plain lines
@@ -942,12 +955,61 @@ def contract_splitlines(case):
             try:
                 recs = _pairs(parse(iter_splitlines(path, chunk_size=chunk)))
             except Exception as e:
-                return ("fail", f"{site}/{kind} parser on stream raises {type(e).__name__}",
-                        f"{case}: {type(e).__name__}: {str(e)[:200]}")
+                return ("fail", f"{kind} parser on stream raises {type(e).__name__}",
+                        f"{type(e).__name__}: {str(e)[:200]}")
             if [[a, b.upper()] for a, b in recs] != [[a, b.upper()] for a, b in spec]:
-                return ("fail", f"{site}/{kind} records from stream differ/{chunk_class(chunk, len(text))}",
-                        f"{case}: records {recs[:3]}, file has {spec[:3]}")
+                return ("fail", f"{kind} records from stream differ", f"records {recs[:3]}, file has {spec[:3]}")
     return ("ok", len(lines) > 1)
+
+
+def sl_candidates(case):
+    kind, payload, lay, cmp_, chunk = case
+    if cmp_:
+        yield [kind, payload, lay, "", chunk]
+    for k in sorted(lay):
+        plain = PLAIN_LAY.get(k, False)
+        if lay[k] != plain:
+            d = dict(lay)
+            d[k] = plain
+            if k not in PLAIN_LAY:
+                del d[k]
+            yield [kind, payload, d, cmp_, chunk]
+    if chunk is not None:
+        yield [kind, payload, lay, cmp_, None]
+        if chunk != 1:
+            yield [kind, payload, lay, cmp_, 1]
+    if kind == "lines":
+        for i in range(len(payload)):
+            yield [kind, payload[:i] + payload[i + 1:], lay, cmp_, chunk]
+        for i, ln in enumerate(payload):
+            if len(ln) > 1:
+                yield [kind, payload[:i] + [ln[:1]] + payload[i + 1:], lay, cmp_, chunk]
+    else:
+        for nn, ss in shrink_records(payload[0], payload[1], "dna"):
+            yield [kind, [nn, ss], lay, cmp_, chunk]
+
+
+def contract_splitlines(case):
+    res = sl_eval(case)
+    if res[0] != "fail":
+        return res
+    kind, payload, lay, cmp_, chunk = case
+    n = len(sl_text(case)[2])
+    coarse = ("sl", res[1], kind, cmp_, lay_tag(lay), chunk_class(chunk, n))
+    if coarse not in _MIN_CACHE:
+        small, r2 = minimise(case, sl_eval, sl_candidates, res[1])
+        k2, p2, l2, c2, ch2 = small
+        feats = ([c2] if c2 else [])
+        tag = lay_tag(l2).replace("eol='\\r\\n'", "CRLF").replace("eol='\\r'", "CR")
+        if tag != "plain-layout":
+            feats.append(tag)
+        if ch2 is not None:
+            feats.append(chunk_class(ch2, len(sl_text(small)[2])))
+        site = "splitlines/" + ("lines" if kind == "lines" else f"{kind}-text")
+        key = f"{site}/{res[1]}" + ("/" + ",".join(feats) if feats else "")
+        _MIN_CACHE[coarse] = (key, small, r2[2] if r2 else res[2])
+    key, small, smsg = _MIN_CACHE[coarse]
+    return ("fail", key, f"{case}: {res[2]} || minimal witness {small}: {smsg}")
 
 
 # ------------------------------------------------------------------------------------------------ registry
@@ -964,14 +1026,16 @@ BOUNDED = {
                       "parse.fasta.MinimalGdeParser"],
         "bound": "4 container kinds (ArrayAlignment, Alignment, old and new SequenceCollection) x suffixes "
                  "{fasta,fa,mfa,phylip,paml,gde,json} x {plain,gz,bz2,zip} x {dna,rna,protein}; 1-3 sequences of "
-                 "length {0..8,59,60,61,119,120,121,180,181}; 27 printable-ASCII names (incl. '>', '|', '#', '%', "
-                 "blanks, 9/10/11/30 characters) in first and second position; ragged collections for "
-                 "fasta/gde/json with lengths from {0,1,59,60,61,121}^2; plus a seeded sample (600 quick / 20000 "
-                 "thorough) of 1-5 random printable names (<=20 chars) and random sequences of length <=400",
+                 "length {0..8,59,60,61,119,120,121,180,181} over the full alphabet incl. gaps and ambiguity codes; "
+                 "27 printable-ASCII names (incl. '>', '|', '#', '%', blanks, 9/10/11/30 characters) in first and "
+                 "second position; ragged collections for fasta/gde/json with lengths from {0,1,59,60,61,121}^2; "
+                 "plus a seeded sample (600 quick / 20000 thorough) of 1-5 random printable names (<=20 chars) "
+                 "and random sequences of length <=400",
         "rule": "a case = (kind, moltype, suffix, compression, names, sequences); quick = one-factor sweeps, thorough "
                 "= cross product; non-trivial when some sequence is non-empty; distinct by hash of the case; "
-                "skipped when the container cannot hold the data, names collide after 9-character truncation "
-                "(phylip/paml) or the data is ragged for an alignment format",
+                "skipped when the container cannot hold the data, names have blanks at the ends, names collide "
+                "after 9-character truncation (phylip/paml) or the data is ragged for an alignment format; a failing "
+                "case is delta-minimised inside the contract only to name its class (key) and print a small witness",
     },
     "parsers": {
         "gen": gen_parsers, "contract": contract_parsers,
@@ -985,23 +1049,25 @@ BOUNDED = {
                       "cogent3.load_aligned_seqs", "util.io.open_ (gz, bz2, zip)"],
         "bound": "spec-written files of 6 formats (fasta, gde, phylip sequential+interleaved, paml, clustal, genbank) "
                  "x layouts that deviate from the plain one in one respect (line width 0/1/10/50/60, CRLF, no final "
-                 "newline, blank lines between records, lower-case residues, '#' labels, 10-column groups, "
-                 "line numbers) x the name corpus (27 names, both positions) x lengths {1,10,59,60,61,121} (thorough "
-                 "12 lengths) x 1-3 records x compression of the file; plus a seeded sample (500 / 12000) of random "
-                 "names, sequences and layout combinations",
+                 "newline, blank lines between records, lower-case residues (fasta), '#' labels (gde), 10-column "
+                 "groups (phylip), line numbers (clustal)) x the name corpus (27 names, both positions) x lengths "
+                 "{1,10,59,60,61,121} (thorough 12 lengths) x 1-3 records x compression of the file; plus a seeded "
+                 "sample (400 / 12000) of random names, sequences and layout combinations",
         "rule": "a case = (format, moltype, compression, names, sequences, layout); every parser variant of the "
-                "format is run inside one case; distinct by hash of the case",
+                "format (8-27 per format) is run inside one case; skipped when the records are not well-formed for "
+                "the format (empty sequence, name too long for the name column, blanks in clustal/genbank names); "
+                "distinct by hash of the case; failing cases are delta-minimised to name the key",
     },
     "splitlines": {
         "gen": gen_splitlines, "contract": contract_splitlines,
-        "functions": ["util.io.iter_splitlines", "util.io.open_", "parse.sequence.LineBasedParser",
-                      "parse.fasta.MinimalFastaParser/MinimalGdeParser", "parse.phylip.MinimalPhylipParser",
-                      "parse.paml.PamlParser", "parse.clustal.ClustalParser"],
+        "functions": ["util.io.iter_splitlines", "util.io.open_", "parse.fasta.MinimalFastaParser/MinimalGdeParser",
+                      "parse.phylip.MinimalPhylipParser", "parse.paml.PamlParser", "parse.clustal.ClustalParser"],
         "bound": "14 line lists (empty file, blank lines, blanks inside lines) x {LF, CRLF, CR} x final newline "
                  "yes/no x {plain, gz} (thorough + bz2, zip) x every chunk size 1..len+1 and None; spec-written "
                  "fasta/gde/phylip/paml/clustal files in every layout x chunk sizes (all 1..len+1 in thorough, "
-                 "a spread incl. 1..11, 59..63, len-3..len+1 in quick); plus seeded random line lists",
+                 "a spread incl. 1..11, 59..63, len-3..len+1 in quick); plus seeded random line lists (300 / 3000)",
         "rule": "a case = (line list or format records, layout, compression, chunk size); non-trivial when the file "
-                "has more than one line; distinct by hash of the case",
+                "has more than one line; distinct by hash of the case; the record comparison is skipped when the "
+                "parser does not return the spec records from the in-memory lines (that is the `parsers` contract)",
     },
 }
